@@ -7,6 +7,7 @@ PROOF_MODULES = ["PyribsProofs.C05", "PyribsGen.Formulas", "PyribsProofs.GenF", 
                  "PyribsProofs.GenFArch"]
 THEOREMS = [
     "Pyribs.GenFProofs.single_newthr_from_source",
+    "Pyribs.GenFProofs.single_threshold_bracket_from_source",
     "Pyribs.GenFProofs.batch_newthr_from_source",
     "Pyribs.GenFProofs.batch_threshold_matches",
     "Pyribs.GenFProofs.single_threshold_matches",
